@@ -950,7 +950,8 @@ def group_by_function(allow_aggregator_fallback):
             value = t if value_selector is None else value_selector(t)
             groups.setdefault(key_selector(t), []).append(value)
             utils.limit_memory_usage(engine, (1, groups))
-        return select(groups.items(), new_aggregator)
+        return select(
+            ((k, tuple(v)) for k, v in groups.items()), new_aggregator)
 
     return group_by
 
